@@ -138,6 +138,7 @@ func (m *Machine) query(q *Term) (Result, map[string]uint64) {
 	rel := termVars(q)
 	used := make([]bool, len(ps.pc))
 	var slice []string
+	var sliceTerms []*Term
 	for changed := true; changed; {
 		changed = false
 		for i, c := range ps.pc {
@@ -149,6 +150,7 @@ func (m *Machine) query(q *Term) (Result, map[string]uint64) {
 				used[i] = true
 				rel = mergeSorted(rel, cv)
 				slice = append(slice, termKey(c))
+				sliceTerms = append(sliceTerms, c)
 				changed = true
 			}
 		}
@@ -177,10 +179,21 @@ func (m *Machine) query(q *Term) (Result, map[string]uint64) {
 	}
 	var model map[string]uint64
 	var r Result
+	// fast incremental attempt (short timeout), then a one-shot run with the full timeout
 	if okModel {
 		r, model = m.solver.CheckWithModel(q, names, sorts)
 	} else {
 		r = m.solver.CheckWith(q)
+	}
+	if r == Unknown && m.oneshot != nil && m.solver.Errors == 0 {
+		m.solver.Unknowns--
+		m.solver.Retried++
+		if !okModel {
+			names, sorts = nil, nil
+		} else if names == nil {
+			names = []string{}
+		}
+		r, model = m.oneshot.OneShot(append(sliceTerms, q), names, sorts)
 	}
 	if r != Unknown {
 		qcache.Store(key, qres{r, model})
